@@ -199,6 +199,11 @@ class Phys:
             return (self.dim(units), (F(m) * F(cv.scale) + F(cv.offset)) * r[0])
         return None
 
+    def positive(self, units):
+        """positively scaled: the value in root units grows with the magnitude"""
+        p1, p0 = self.value(1, units), self.value(0, units)
+        return p1 is not None and p0 is not None and p1[1] > p0[1]
+
     def equalise(self, x, ua, ub):
         """the magnitude y with  y [ub]  physically equal to  x [ua]  (None if impossible)"""
         pa = self.value(x, ua)
@@ -311,7 +316,7 @@ class World:
                 else:
                     if [lt, eq.val, gt].count(True) != 1:
                         fail("trichotomy", f"not exactly one of <, ==, > holds: < {lt}, == {eq.val}, > {gt}")
-                    if lt != (pa[1] < pb[1]) or gt != (pa[1] > pb[1]):
+                    if ph.positive(ua) and ph.positive(ub) and (lt != (pa[1] < pb[1]) or gt != (pa[1] > pb[1])):
                         fail("order", f"< is {lt}, > is {gt} but root-unit magnitudes are {pa[1]} and {pb[1]}")
                     if le != (lt or eq.val) or ge != (gt or eq.val):
                         fail("order", f"<= / >= inconsistent with <, ==, >: {cmp_.val}, == {eq.val}")
@@ -395,6 +400,7 @@ def run(ck):
         "registry mode: autoconvert_offset_to_baseunit=False, no active context, default system (hash goes through base units = "
         "root units with gram renamed to kilogram; the model hashes root units and only hash *equality* is compared)",
         "units whose factor goes through a non-integer power (planck_*, franklin, alpha-dependent) are outside the exact clauses",
+        "agreement of <, > with the order of root-unit magnitudes is claimed for positively scaled units only (the registry has negative constants such as electron_g_factor); exactly-one-of and model correspondence are checked for all",
         "logarithmic units are outside the model (C06); offset units in compound position only through their error class",
         "Python's hash() is idealised as injective on (class, magnitude, units); hash(NaN) is identity-based and excluded",
     ]
@@ -584,6 +590,8 @@ def run(ck):
             if pa[0] != pb[0]:
                 if oc.err != "XDim":
                     fails.append((f"unit-order:{reg}:{a},{b}", f"Unit ordering across dimensions gave {oc.js()}", {"law": "unit", "a": a, "b": b}))
+            elif not (ph.positive({a: F(1)}) and ph.positive({b: F(1)})):
+                pass                                   # negatively scaled units: outside the ordering clause
             elif oc.err or oc.val != (pa[1] < pb[1], pa[1] <= pb[1], pa[1] > pb[1], pa[1] >= pb[1]):
                 fails.append((f"unit-order:{reg}:{a},{b}", f"Unit ordering is {oc.js()} for sizes {pa[1]}, {pb[1]}", {"law": "unit", "a": a, "b": b}))
         # Unit == Quantity and Unit == number
@@ -688,7 +696,7 @@ def run(ck):
                 except OverflowError:
                     continue
         pa, pb = ph.value(F(x), {a: F(1)}), ph.value(F(y), {b: F(1)})
-        if pa is None or pb is None:
+        if pa is None or pb is None or not (ph.positive({a: F(1)}) and ph.positive({b: F(1)})):
             continue
         big = max(abs(pa[1]), abs(pb[1]))
         if big == 0 or abs(pa[1] - pb[1]) <= big * F(1, 10 ** 9):
